@@ -3,6 +3,8 @@
 package c04
 
 import (
+	"github.com/ipfs/go-cid"
+	"github.com/ucan-wg/go-ucan/pkg/args"
 	"errors"
 	"sync"
 	"github.com/ucan-wg/go-ucan/token/delegation"
@@ -511,4 +513,46 @@ func TestOtherTimeZones(t *testing.T) {
 		}
 	}
 	P.SetExtra("other_time_zone_chains", n)
+}
+
+// TestProoflessInvocation: the chain of length ZERO - an invocation whose issuer is its subject and that names no
+// proof - with its own expiration 30 minutes to 13 hours in the past (and in the future, as control): whatever a
+// validator makes of an empty proof list, an invocation that has expired is not allowed. Constructed and decoded.
+func TestProoflessInvocation(t *testing.T) {
+	ctx := &h.Ctx{P: P, T: t}
+	n := 0
+	for _, off := range []int64{-13 * 3600, -3600, -1800, -2, 1800, 3600} {
+		for _, decoded := range []bool{false, true} {
+			for _, aud := range []int{-1, 0, 3} {
+				v := off
+				iv := chain.Inv{Iss: 2, Sub: 2, Aud: aud, Cmd: "/foo", NonceLen: 12, Exp: &v, Decoded: decoded}
+				tk, err := chain.BuildInv(iv, nil)
+				if err != nil {
+					P.Class("proofless:not-buildable")
+					continue
+				}
+				n++
+				var aerr, herr error
+				pn, _, _ := h.Try(func() {
+					aerr = tk.ExecutionAllowed(emptyLoader{})
+					herr = tk.ExecutionAllowedWithArgsHook(emptyLoader{}, func(ro args.ReadOnly) (*args.Args, error) { return ro.WriteableClone(), nil })
+				})
+				if pn {
+					continue
+				}
+				if off < 0 && (aerr == nil || herr == nil) {
+					ctx.Fail("C04/proofless/allowed-with-expired-invocation", "an invocation without proofs (issuer = subject, audience %d, decoded %v) that expired %d s ago is allowed (plain: %v, hook: %v)", aud, decoded, -off, aerr, herr)
+					return
+				}
+			}
+		}
+	}
+	P.EvalN(n)
+	P.AddDistinct(n)
+}
+
+type emptyLoader struct{}
+
+func (emptyLoader) GetDelegation(c cid.Cid) (*delegation.Token, error) {
+	return nil, delegation.ErrDelegationNotFound
 }
